@@ -72,6 +72,18 @@ class UFTranslator(Translator):
         return v
 
 
+def template_defects(config_name, tpl, tag):
+    """ground: what parametrize=False returns contains nothing but the placeholders K[i,j], P[i], rho_i (and s-free)"""
+    K, P, rho = _placeholders(tpl)
+    allowed = {*K.values(), *P.values(), *rho.values()}
+    foreign = sorted((str(x) for x in (tpl.atoms(sp.Indexed) | {f for f in tpl.free_symbols if isinstance(f, sp.Symbol)}) - allowed
+                      if not (isinstance(x, sp.Symbol) and any(x in a.free_symbols for a in allowed))))  # fmt: skip
+    if not foreign:
+        return [Result(name=f"{tag}parametrize=False returns the template over K, P, rho only", kind="ground", status="ok", config=config_name)]
+    return [Result(name=f"{tag}parametrize=False returns the template over K, P, rho only", kind="ground", status="fail", config=config_name,
+                   replay={"reproduced": True, "foreign symbols in the template": foreign[:12], "template": str(tpl)[:400]})]  # fmt: skip
+
+
 def mk_tr(ctx, **kw):
     return UFTranslator(ctx, branch_by_solver=True, name_classes=NAME_CLASSES, **kw)
 
@@ -82,6 +94,8 @@ def _placeholders(mat):
     K, P, rho = {}, {}, {}
     for sym in mat.free_symbols | mat.atoms(sp.Indexed):
         if isinstance(sym, sp.Indexed):
+            if sym.base.name not in ("K", "P") or not all(k.is_Integer for k in sym.indices):
+                continue  # not a placeholder (template_defects reports it)
             idx = tuple(int(k) for k in sym.indices)
             if sym.base.name == "K":
                 K[idx] = sym
@@ -253,6 +267,10 @@ def cfg_param(config, tier, seed):
                 km.NonRelativisticPVector.formulate(n_channels=n, n_poles=other)
                 full = km.NonRelativisticPVector.formulate(n_channels=n, n_poles=n_poles)
                 tpl = km.NonRelativisticPVector.formulate(n_channels=n, n_poles=n_poles, parametrize=False)
+                bad = template_defects(config["name"], tpl, "after-history:")
+                out += bad
+                if bad[0].status == "fail":
+                    return out
                 out += abstract_part(config["name"], kind, n, tpl, None, tag="after-history:")
                 tr(sy["s"])
                 node_types = (sp.Sum,)
@@ -264,6 +282,10 @@ def cfg_param(config, tier, seed):
                     n_channels=n, n_poles=n_poles, return_f_hat=flag, phsp_factor=X, angular_momentum=L, meson_radius=sy["d"]
                 )
                 tpl = km.RelativisticPVector.formulate(n_channels=n, n_poles=n_poles, parametrize=False, return_f_hat=flag)
+                bad = template_defects(config["name"], tpl, f"after-history(order={order}):")
+                out += bad
+                if bad[0].status == "fail":
+                    return out
                 if flag:
                     tplF = km.RelativisticPVector.formulate(n_channels=n, n_poles=n_poles, parametrize=False)
                     out += [
